@@ -2,6 +2,8 @@ package chaincheck
 
 import (
 	"fmt"
+	"github.com/bytom/bytom/consensus"
+	"github.com/bytom/bytom/protocol/bc/types"
 	"testing"
 
 	"pgregory.net/rapid"
@@ -118,6 +120,16 @@ func c10Exec(c histCase, x *pbt.Ctx) error {
 	}
 	// if the best tip is not the fork-choice winner of the history node (finality, justification),
 	// children of it may not become best; the verdict compared is the error value of ProcessBlock
+	// every fourth case the probe is a side branch instead: it forks one or two blocks below the
+	// best block, is one block longer than the main chain, and its last block spends an output that
+	// exists only on the main chain above the fork point.  It is delivered last block first, so that
+	// the whole branch is connected by one reorganisation (detach the main-chain blocks, attach the
+	// branch); the last block is invalid on its branch and must be refused by both nodes.
+	if c.Probe%4 == 3 {
+		if done, err := c10CrossBranchProbe(w, n, fresh, best, c.Probe, x); done || err != nil {
+			return err
+		}
+	}
 	probes := []string{"veto", "bad-premature-veto", "bad-immature-coinbase", "spend", "bad-double-spend", "bad-missing"}
 	// exactly one probe block is delivered per case: a refused probe stays in the node's block
 	// tree (see the C13 known finding) and would disturb the verdict on the next one
@@ -147,6 +159,78 @@ func c10Exec(c histCase, x *pbt.Ctx) error {
 		break
 	}
 	return nil
+}
+
+func c10CrossBranchProbe(w *ck.World, n, fresh *ck.Node, best, sel int, x *pbt.Ctx) (bool, error) {
+	path := w.Path(best)
+	depth := 1 + (sel/4)%2
+	if len(path) <= depth {
+		return false, nil
+	}
+	fork := path[len(path)-1-depth]
+	// an OP_TRUE BTM output created on the main chain above the fork point and still unspent
+	forkState := w.Blocks[fork].State
+	var target *ck.Utxo
+	for _, u := range w.Blocks[best].State.Sorted() {
+		if _, old := forkState.Utxos[u.ID]; old {
+			continue
+		}
+		if u.Kind == ck.KindNormal && u.Asset == *consensus.BTMAssetID && len(u.Program) == 1 && u.Program[0] == 0x51 && u.Amount > 100000000 {
+			target = u
+			break
+		}
+	}
+	if target == nil {
+		return false, nil
+	}
+	d := &types.TxData{Version: 1, Inputs: []*types.TxInput{types.NewSpendInput(nil, target.SourceID, target.Asset, target.Amount, target.SourcePos, target.Program, target.StateData)},
+		Outputs: []*types.TxOutput{types.NewOriginalTxOutput(target.Asset, target.Amount-50000000, []byte{0x51}, nil)}}
+	raw, err := d.MarshalText()
+	if err != nil {
+		return false, fmt.Errorf("HARNESS: %v", err)
+	}
+	var branch []int
+	parent := fork
+	for k := 0; k <= depth; k++ {
+		bd := ck.BlockDesc{Parent: parent, Skip: 1}
+		if k == depth {
+			bd.Raw = []string{string(raw)}
+		}
+		parent = w.Add(bd)
+		branch = append(branch, parent)
+	}
+	last := branch[len(branch)-1]
+	if w.Blocks[last].State.Valid {
+		return false, fmt.Errorf("HARNESS: the model accepts a spend of an output of another branch")
+	}
+	x.Class("probe:cross-branch-spend")
+	deliver := func(node *ck.Node) (error, int) {
+		var lastErr error
+		for k := len(branch) - 1; k >= 0; k-- {
+			if _, err := node.Deliver(branch[k]); err != nil {
+				lastErr = err
+			}
+		}
+		return lastErr, node.BestIdx()
+	}
+	e1, b1 := deliver(n)
+	e2, b2 := deliver(fresh)
+	for _, r := range []struct {
+		who  string
+		best int
+		err  error
+	}{{"the node that went through the history", b1, e1}, {"a fresh node fed only the main chain", b2, e2}} {
+		if r.best == last || r.best < 0 || !w.Blocks[r.best].State.Valid {
+			return true, fmt.Errorf("side branch of %d blocks forking %d below the best block #%d, delivered last block first; its last block #%d spends output %s, which exists only on the main chain above the fork point: %s ends with best block #%d (errors: %v)", len(branch), depth, best, last, target.ID.String()[:8], r.who, r.best, r.err)
+		}
+	}
+	if b1 != b2 {
+		return true, fmt.Errorf("after the side branch with an invalid last block the history node is at #%d, the fresh node at #%d", b1, b2)
+	}
+	if err := checkLedgerAgainstModel(n, b1, "after the cross-branch probe"); err != nil {
+		return true, err
+	}
+	return true, nil
 }
 
 // contract-heavy histories: two contract codes registered again and again on every branch, so that
